@@ -53,6 +53,12 @@ class CP(plumpy.Process):
                 sample(self, f'{me}:run:after-launch-await{k}')
         if plan.get('callback'):
             self.call_soon(self.cb)
+        if plan.get('poke') is not None:
+            # a child (whose context has its launcher below it on the process stack) makes code of that launcher run
+            parent = PLAN['_byname'][plan['poke']]
+            if not parent.has_terminated():
+                parent.call_soon(parent.cb)
+                PLAN['_poked'] = True
         if plan.get('nested') is not None:
             inner = CP(inputs={'name': plan['nested']}, loop=self.loop)
             PLAN['_procs'].append(inner)
@@ -89,13 +95,14 @@ def evaluate(facts):
                         where=kinds[:12], **facts)
 
 
-def concurrent(n3: bool, a0: int, a1: int, b0: int, b1: int, c0: int, launcher: int, cb: bool, wait: bool, pause_at: int, al: int):
+def concurrent(n3: bool, a0: int, a1: int, b0: int, b1: int, c0: int, launcher: int, cb: bool, wait: bool, pause_at: int, al: int,
+               poke: bool = False):
     """2-3 processes stepping concurrently on one loop; symbolic number of await points per step; one of them launches a
     child from its step; optional call_soon callback, wait/resume and pause/play"""
     a0, a1, b0, b1, c0, al = pick(a0, 3), pick(a1, 3), pick(b0, 3), pick(b1, 3), pick(c0, 3), pick(al, 3)
     la = pick(launcher, 3)
     if la == 0:
-        assume(al == 0)
+        assume(al == 0 and not poke)
     assume(-1 <= pause_at <= PAUSE_MAX[0])
     del SAMPLES[:]
     PLAN.clear()
@@ -103,11 +110,12 @@ def concurrent(n3: bool, a0: int, a1: int, b0: int, b1: int, c0: int, launcher: 
     PLAN['A'] = dict(awaits0=a0, awaits1=a1, launch='K' if la == 1 else None, callback=cb, wait=wait, awaits_after=al)
     PLAN['B'] = dict(awaits0=b0, awaits1=b1, launch='K' if la == 2 else None, callback=False, wait=False, awaits_after=al)
     PLAN['C'] = dict(awaits0=c0, awaits1=0)
-    PLAN['K'] = dict(awaits0=1, awaits1=1)
+    PLAN['K'] = dict(awaits0=1, awaits1=1, poke=(['A', 'B'][la - 1] if (poke and la) else None))
     loop = fresh_loop()
     names = ['A', 'B'] + (['C'] if n3 else [])
     procs = [CP(inputs={'name': nm}, loop=loop) for nm in names]
     PLAN['_procs'].extend(procs)
+    PLAN['_byname'] = dict(zip(names, procs))
     probe_log = []
 
     async def probe():
@@ -152,6 +160,8 @@ def concurrent(n3: bool, a0: int, a1: int, b0: int, b1: int, c0: int, launcher: 
             NOTES.witness('parent_and_child_steps_open_at_once')
         if cb:
             NOTES.witness('scheduled_callback')
+        if PLAN.get('_poked'):
+            NOTES.witness('child_schedules_callback_of_its_launcher')
         if any(w.startswith('hook:on_paused') for (w, _e, _g) in SAMPLES):
             NOTES.witness('pause_hooks')
         if a0 and b0:
@@ -212,7 +222,7 @@ def shards(tier):
 
 BOUNDS = {
     'quick': dict(processes='2 or 3 concurrently stepping processes + optionally a child launched from a step of A or B', await_points='0..2 per step (symbolic; two of them fixed in the quick tier)',
-                  extras='call_soon callback, wait/resume, pause of A at gap -1..6 with play at idle', nested='A executes B (executes C) re-entrantly, 0..1 await points before the nested call',
+                  extras='call_soon callback, the child scheduling a callback of its launcher from its own step, wait/resume, pause of A at gap -1..6 with play at idle', nested='A executes B (executes C) re-entrantly, 0..1 await points before the nested call',
                   sampled='every step start/end, after every await, after launch / nested execute, every overridable hook, callbacks, and a non-process probe task between callbacks'),
     'thorough': dict(processes='as quick', await_points='0..2 for every step of A and B (symbolic), C fixed to 1', extras='as quick', nested='as quick', sampled='as quick'),
 }
@@ -221,5 +231,5 @@ RULE = 'paths over (number of await points per step, who launches a child, callb
 SOLVER_ROLE = 'selector role: the symbolic await counts / positions determine the interleaving; the solver enumerates them exhaustively'
 EXPLANATION = 'Process.current() sampled inside generated steps, hooks and callbacks must be the process owning the code; a probe task outside any process must see None'
 ASSUMPTIONS = ['FIFO StepLoop for the concurrent scenario; stock asyncio loop + plumpy.set_event_loop_policy() for re-entrant execute()']
-REQUIRED_WITNESSES = ['parent_and_child_steps_open_at_once', 'child_launched_from_step', 'scheduled_callback', 'pause_hooks', 'interleaved_async_steps', 'nested_execute']
+REQUIRED_WITNESSES = ['child_schedules_callback_of_its_launcher', 'parent_and_child_steps_open_at_once', 'child_launched_from_step', 'scheduled_callback', 'pause_hooks', 'interleaved_async_steps', 'nested_execute']
 LEVEL_TEXT = 'bounded exhaustive symbolic exploration of interleavings of concurrently stepping processes, children and re-entrant executions with Process.current() sampled at every await point, hook and callback'
